@@ -2,5 +2,7 @@ SPECIFICATION Spec
 CONSTANTS
   Dev = {}
   MaxCross = 1
+  GrpSlots = {}
+  TClasses = {"Cls"}
 INVARIANT C10
 CHECK_DEADLOCK FALSE
